@@ -10,6 +10,7 @@ the hooked chibicc dumps its typed AST, and the declared types (every level, eve
 the update node must agree (checklib/C16.py, leg `qualifier`).
 -/
 import ChibiVerif.Lemmas.C16QualLemmas
+import ChibiVerif.Lemmas.C16DeclrLemmas
 
 namespace ChibiVerif.Props.C16
 open ChibiVerif.C16Qual ChibiVerif.C16QualSpec ChibiVerif.C16QualLemmas
@@ -84,5 +85,28 @@ example :
         elabUpdate menv .shl (.idx (.mem (.var "s") "m") 1)].map Except.toOption
      | .error _ => []) =
       [some .plainMember, some .plainMember, some .plainIncDec, some .plainDeref, none, none, some (.casLoop 4)] := by decide
+
+open ChibiVerif.C16Declr in
+/-- **C16 (declarator, token level).**  parse.c `declarator` - with its double parse of a parenthesised declarator and
+    its right-to-left handling of array suffixes - run on the tokens of ANY valid declarator (C11 6.7.6 grammar: the
+    identifier, `*`, `[n]`, `(void)`, parentheses, nested to any depth; no function returning a function or an array),
+    started with a `Type` that refines the C type `T` named by the specifiers and followed by anything that does not
+    continue the declarator, consumes exactly the declarator and returns a `Type` that refines the C11 type `T D` of the
+    identifier: same derivation, every `_Atomic` of `T` still there.  (`F` bounds the recursion depth.) -/
+theorem C16_declarator_tokens (d : Declr) (hv : valid d = true) :
+    ∃ F, ∀ (t : Ty) (T : CType) (rest : List DTok) (fuel : Nat), refines t T = true → endsDeclr rest = true → F ≤ fuel →
+      ∃ t', declaratorT fuel (toks d ++ rest) t = some (t', rest) ∧ refines t' (declType d T) = true := by
+  obtain ⟨F, h⟩ := (AB d hv).1
+  exact ⟨F, fun t T rest fuel hr he hf => ⟨d.apply t, h t rest fuel he hf, refines_apply d hr⟩⟩
+
+open ChibiVerif.C16Declr in
+/-- non-vacuity of `C16_declarator_tokens`: `_Atomic int *(*a[2])(void)` (array of 2 pointers to functions returning pointer
+    to atomic int), followed by `;`-like rest: tokens `* ( * a [ 2 ] ) ( void )` -/
+example :
+    let d : Declr := .ptr (.fn (.ptr (.arr .name 2)))
+    valid d = true ∧ toks d = [.star, .lp, .star, .ident, .lb, .num 2, .rb, .rp, .lp, .void_, .rp] ∧
+    declaratorT 6 (toks d ++ [.rp]) (.num .int true) =
+      some (.arr (.ptr (.fn (.ptr (.num .int true) false) false) false) 2 false, [.rp]) ∧
+    declType d (.num .int true) = .arr (.ptr (.fn (.ptr (.num .int true) false)) false) 2 := by decide
 
 end ChibiVerif.Props.C16
